@@ -35,7 +35,7 @@ ASSUMPTIONS = [
     "units: Latin-1 strings up to the capacity (the two Cyrillic spellings in DEPTH_UNITS are outside the alphabet); depth conversions compared on concrete arrays in the replay",
     "df()/set_data_from_df (pandas, C code) are outside this technique's reach: not claimed",
 ]
-WITNESS_TARGETS = ["header-int64", "header-nan", "header-text", "text-curve", "unit-recognised", "unit-conflict", "unit-unknown", "csv-units-in-brackets", "excel-nan-cell"]
+WITNESS_TARGETS = ["header-int64", "header-nan", "header-text", "text-curve", "unit-recognised", "unit-conflict", "unit-unknown", "csv-units-in-brackets", "excel-nan-cell", "unit-table-enumerated", "curve-name-ending-in-colon-digits"]
 EXCLUSIONS = {}
 KINDS = ["text", "np.int64", "np.float64", "nan", "int", "float", "empty"]
 UNIT_SETS = {"FT": ("FT", "F", "FEET", "FOOT"), "M": ("M", "METER", "METERS", "METRE", "METRES"), ".1IN": (".1IN", "0.1IN", ".1INCH", "0.1INCH")}
@@ -54,7 +54,145 @@ def tasks(tier):
             out.append({"name": "units-%s-%s" % (which, "x".join(map(str, lens))), "params": {"part": "units", "which": which, "lens": list(lens)}, "weight": 1})
     for loc in ("line", "[]", "()", None):
         out.append({"name": "csv-%s" % loc, "params": {"part": "csv", "units_loc": loc, "tcap": b["text_cap"]}})
+    # the recognised spellings themselves, as listed in the working tree's lasio.defaults.DEPTH_UNITS (incl. the two
+    # Cyrillic ones, which are outside the engine's alphabet for *symbolic* units): a finite table, every entry is run
+    out.append({"name": "unit-table", "params": {"part": "unit-table"}})
+    # df() / set_data_from_df(df()): pandas is executed natively, the curve name is symbolic and fixed per path by forking
+    for pos in (1, 2):
+        out.append({"name": "df-name-at-%d" % pos, "params": {"part": "df", "pos": pos}})
     return out
+
+
+DF_ALPHABET = "A:12"
+
+
+def _df_build(LASFile, nm, pos):
+    las = LASFile()
+    names = ["DEPT", "A", "B"]
+    names[pos] = nm
+    las.append_curve(names[0], np.array([1.0, 2.0, 3.0]), unit="M")
+    las.append_curve(names[1], np.array([10.5, np.nan, 30.0]), unit="u1")
+    las.append_curve(names[2], np.array([7.0, 8.0, 9.0]), unit="u2")
+    return las
+
+
+def _df_check(las):
+    """problems with df() and set_data_from_df(df()) on this LASFile"""
+    problems = []
+    keys0 = list(las.keys())
+    orig0 = [c.original_mnemonic for c in list.__iter__(las.curves)]
+    data0 = [np.array(c.data, copy=True) for c in list.__iter__(las.curves)]
+    df = las.df()
+    if df.index.name != keys0[0] or list(df.columns) != keys0[1:]:
+        problems.append("df() index %r columns %r for curves %r" % (df.index.name, list(df.columns), keys0))
+    elif not (np.array_equal(df.index.values, data0[0]) and all(np.array_equal(df[k].values, d, equal_nan=True) for k, d in zip(keys0[1:], data0[1:]))):
+        problems.append("df() values differ from the curves")
+    las.set_data_from_df(df)
+    keys1 = list(las.keys())
+    if keys1 != keys0:
+        problems.append("set_data_from_df(df()) changed the curve names %r -> %r (originals %r -> %r)" % (keys0, keys1, orig0, [c.original_mnemonic for c in list.__iter__(las.curves)]))
+    if not all(np.array_equal(np.asarray(c.data, dtype=float), d, equal_nan=True) for c, d in zip(list.__iter__(las.curves), data0)):
+        problems.append("set_data_from_df(df()) changed the curve values")
+    return problems
+
+
+def h_df(ns, p):
+    import itertools
+
+    def run():
+        nm = SymStr.fresh("name", 3, minlen=1)
+        codes = tuple(ord(c) for c in DF_ALPHABET)
+        core.assume(allc(nm, lambda c: z.in_set_c(c, codes)))
+        c = core.ctx()
+        c.inputs = {"part": "df", "pos": p["pos"], "name": nm}
+        conc = None
+        for n in (1, 2, 3):
+            for t in itertools.product(DF_ALPHABET, repeat=n):
+                if conc is None and nm == "".join(t):
+                    conc = "".join(t)
+        if conc is None:
+            raise core.OutOfBound("name outside the alphabet")
+        core.witness("curve-name-ending-in-colon-digits", conc[-2:-1] == ":" and conc[-1:].isdigit() and len(conc) == 3)
+        problems = _df_check(_df_build(ns.las.LASFile, conc, p["pos"]))
+        core.oblige("df-and-set_data_from_df-round-trip", not problems, info=problems[:2])
+        return {"observed": {"problems": len(problems)}}
+
+    return run
+
+
+def unit_table_cases():
+    """(units for STRT/STOP/STEP/first curve, expected index unit) for every listed spelling"""
+    import importlib.util
+    import os
+    from symlas import loader
+
+    spec = importlib.util.spec_from_file_location("_lasio_defaults_for_c18", os.path.join(loader.REPO, "lasio", "defaults.py"), submodule_search_locations=None)
+    src = open(os.path.join(loader.REPO, "lasio", "defaults.py"), encoding="utf-8").read()
+    import ast
+
+    table = None
+    for node in ast.parse(src).body:
+        if isinstance(node, ast.Assign) and any(getattr(t, "id", None) == "DEPTH_UNITS" for t in node.targets):
+            table = ast.literal_eval(node.value)
+    if not table:
+        raise core.Inconclusive("DEPTH_UNITS not found in lasio/defaults.py")
+    other = {"FT": "M", "M": "FT", ".1IN": "FT"}
+    cases = []
+    for key, spellings in table.items():
+        for sp in spellings:
+            variants = {sp}
+            if sp.isascii():
+                variants |= {sp.lower(), sp.title()}
+            for v in sorted(variants):
+                if v.startswith("."):
+                    # 'DEPT..1IN' in ~Curve is the double-dot form (mnemonic 'DEPT.', unit '1IN'): C04's subject
+                    cases.append(([v, v, v, ""], key))
+                    continue
+                cases.append(([v, v, v, v], key))          # everywhere
+                cases.append((["", "", "", v], key))         # first curve only
+                cases.append(([v, v, v, ""], key))           # ~Well only
+                cases.append(([other[key]] * 3 + [v], None))  # conflict between ~Well and the first curve
+    return cases
+
+
+def _unit_table_run(LASFile_read, exc_cls):
+    problems = []
+    for us, want in unit_table_cases():
+        lines = ["~V", "VERS. 2.0 : v", "WRAP. NO : w", "~W", "STRT." + us[0] + " 1.0 : a", "STOP." + us[1] + " 2.0 : b", "STEP." + us[2] + " 1.0 : c", "NULL. -9 : n",
+                 "~C", "DEPT." + us[3] + " : d", "GR.API : g", "~A", "1 10", "2 20"]
+        try:
+            las = LASFile_read(lines)
+        except Exception as e:
+            problems.append("units %r: read raised %r" % (us, e))
+            continue
+        if las.index_unit != want:
+            problems.append("units %r: index_unit %r, expected %r" % (us, las.index_unit, want))
+        try:
+            dm, dft = las.depth_m, las.depth_ft
+            if want is None or not np.allclose(dm, dft * 0.3048):
+                problems.append("units %r: depth_m %r / depth_ft %r" % (us, dm, dft))
+        except exc_cls:
+            if want is not None:
+                problems.append("units %r: depth views undefined" % (us,))
+    return problems
+
+
+def h_unit_table(ns, p):
+    def run():
+        c = core.ctx()
+        c.inputs = {"part": "unit-table"}
+
+        def rd(lines):
+            las = ns.las.LASFile()
+            las.read(SymFile(lines), engine="normal")
+            return las
+
+        problems = _unit_table_run(rd, ns.exceptions.LASUnknownUnitError)
+        core.witness("unit-table-enumerated", len(unit_table_cases()) > 40)
+        core.oblige("every-listed-spelling-is-recognised-and-conflicts-are-undefined", not problems, info=problems[:3])
+        return {"observed": {"problems": len(problems)}}
+
+    return run
 
 
 def _value_of_kind(kind, txt):
@@ -423,7 +561,7 @@ def _same(a, b):
 
 
 def harness(ns, params):
-    return {"json": h_json, "units": h_units, "csv": h_csv, "excel": h_excel}[params["part"]](ns, params)
+    return {"json": h_json, "units": h_units, "csv": h_csv, "excel": h_excel, "unit-table": h_unit_table, "df": h_df}[params["part"]](ns, params)
 
 
 # ------------------------------------------------------------------------------ concrete oracle
@@ -500,6 +638,12 @@ def replay(i):
             except Exception as e:
                 problems.append("to_excel raised %r" % (e,))
                 obs = {"raised": type(e).__name__}
+    elif part == "df":
+        problems = _df_check(_df_build(lasio.LASFile, i["name"], i["pos"]))
+        obs = {"problems": len(problems)}
+    elif part == "unit-table":
+        problems = _unit_table_run(lambda lines: lasio.read("\n".join(lines) + "\n", engine="normal"), lasio.exceptions.LASUnknownUnitError)
+        obs = {"problems": len(problems)}
     elif part == "units":
         us = i["units"]
         lines = ["~V", "VERS. 2.0 : v", "WRAP. NO : w", "~W", "STRT." + us[0] + " 1.0 : a", "STOP." + us[1] + " 2.0 : b", "STEP." + us[2] + " 1.0 : c", "NULL. -9 : n",
